@@ -119,8 +119,12 @@ func runAllocConcurrent(c *Ctx, rounds int) {
 					}
 				}
 			}
+			var justFreed []net.IP
 			for g := 0; g < G; g++ {
 				mode[g] = 1
+				if res[g].err == nil && res[g].ip != nil {
+					justFreed = append(justFreed, res[g].ip)
+				}
 			}
 			step()
 			for g := 0; g < G; g++ {
@@ -129,6 +133,15 @@ func runAllocConcurrent(c *Ctx, rounds int) {
 					c.vio("C06", "concurrent-free-fails", fmt.Sprintf("%s: Free of a block just allocated failed: %v", p.desc, res[g].err), nil)
 				}
 				res[g] = concRes{}
+			}
+			// every one of those simultaneous Free calls (distinct blocks, one bitmap word) returned: each
+			// block must now be free - a second Free of it has to report a double free
+			for _, ip := range justFreed {
+				if err := p.a.Free(net.IPNet{IP: ip, Mask: net.CIDRMask(p.pageOrMax(), p.bitsLen())}); err == nil {
+					bad++
+					c.vio("C06", "concurrent-free-lost", fmt.Sprintf("%s: %d goroutines freed distinct outstanding blocks at the same moment and every Free returned nil, but block %v was still marked as outstanding afterwards (a second Free succeeded): one release was lost", p.desc, G, ip),
+						map[string]interface{}{"pool": p.desc, "round": r, "goroutines": G})
+				}
 			}
 			if r%4 == 0 {
 				// all goroutines free ONE outstanding block at the same moment: exactly one Free succeeds
